@@ -243,8 +243,11 @@ func genWire(r *Rand, g GenCfg) Plan {
 		for i := 0; i < 24; i++ {
 			add(XStep{Op: "mutate", Tok: r.Intn(2), Codec: Pick(r, []string{"cbor", "cbor", "json"}), Kind: Pick(r, []string{"subst", "insert", "append"}), At: r.Intn(4096), Val: r.Intn(256)})
 		}
-		for _, k := range []string{"empty", "trunc", "trunc", "other_key", "iss_swapped", "foreign_header", "foreign_header", "unknown_header", "no_header", "two_payloads", "splice", "hostile_header", "hostile_header", "zero_hash", "zero_hash", "did_url", "did_url", "did_url", "foreign_alt_sig", "foreign_alt_sig", "foreign_alt_sig"} {
+		for _, k := range []string{"empty", "trunc", "trunc", "other_key", "iss_swapped", "foreign_header", "foreign_header", "unknown_header", "no_header", "two_payloads", "splice", "hostile_header", "hostile_header", "zero_hash", "zero_hash", "did_url", "did_url", "did_url", "foreign_alt_sig", "foreign_alt_sig", "foreign_alt_sig", "alias_header", "alias_header", "alias_header"} {
 			add(XStep{Op: "sig", Tok: r.Intn(2), Kind: k, At: r.Intn(600), Val: r.Intn(256)})
+		}
+		for v := 0; v < 16; v++ {
+			add(XStep{Op: "sig", Tok: 0, Kind: "alias_header", Val: v})
 		}
 		if g.Index%4 == 2 {
 			add(XStep{Op: "sig", Tok: r.Intn(2), Kind: "churn", Val: r.Intn(3)})
@@ -377,6 +380,11 @@ func genWire(r *Rand, g GenCfg) Plan {
 			}
 			for v := 0; v < 3; v++ {
 				add(XStep{Op: "byz", Tok: t, Field: "nonce", How: "nonce_len", Val: v})
+			}
+			for _, f := range []string{"iss", "aud", "sub"} {
+				for v := 0; v < 6; v++ {
+					add(XStep{Op: "byz", Tok: t, Field: f, How: "undef_did", Val: v})
+				}
 			}
 			for v := 0; v < 11; v++ {
 				add(XStep{Op: "byz", Tok: t, Field: "cmd", How: "bad_cmd", Val: v})
